@@ -2,16 +2,21 @@
 Proof: props/C19.v.  Tie: grammar of constructor arguments, each accepted value driven through Run, Reload and
 one request in a child process; the model's prediction uses the ServeMux oracle's value obtained by trial
 registration of the same patterns."""
+import filecmp
 import json
 import os
+import re
+import shutil
 import tempfile
 from . import common as C
 from . import httplib as H
 
 OCAML = H.OCAML
-GO = H.GO
+GO = H.GO + ["panicsites"]
 PROP = "props/C19.v"
-PROOFS = H.PROTO_PROOFS + ["proofs/CompositeCfgProofs.v", "model/CompositeCfg.v"] + H.MODEL_FILES
+PROOFS = H.PROTO_PROOFS + ["proofs/HttpCtor.v", "proofs/HttpProgress.v", "proofs/HttpPanicProofs.v", "model/HttpPanic.v",
+                           "model/HttpPanicPolicy.v", "gen/HttpPanicSites.v",
+                           "proofs/CompositeCfgProofs.v", "model/CompositeCfg.v"] + H.MODEL_FILES
 HOW = "build/bin/http -family crash -case <file with the case JSON> | build/bin/http_model"
 
 
@@ -20,22 +25,100 @@ def describe(c):
     extra = ""
     if c.get("prefix") is not None:
         extra = " wildcard-prefix=%r request-paths=%r" % (c.get("prefix")[:40], [p[:30] for p in (c.get("paths") or [])])
+    if c.get("build"):
+        steps = []
+        for i, st in enumerate(c["build"]):
+            opts = ",".join(o["k"] + (("#%d" % o.get("ref", 0)) if o["k"] == "copy" else
+                                      ("=%d" % o.get("v", 0)) if o["k"] in ("drain", "read", "write", "idle") else "")
+                            for o in st.get("opts") or [])
+            steps.append("p%d=NewConfig(%s, [%s]%s)" % (i, st.get("addr"), ", ".join(
+                "%s -> %s" % (r["name"][:20], r["path"][:40]) for r in st.get("routes") or []), (", " + opts) if opts else ""))
+        extra += " chain: " + "; ".join(steps) + ((" via=" + c["via"]) if c.get("via") else "")
     return "kind=%s where=%s addr=%s routes=[%s]%s" % (c.get("kind"), c.get("where"), str(c.get("addr"))[:40], rs, extra)
 
 
+def regenerate():
+    """Run harness/cmd/panicsites on VERIF_REPO; install coq/gen/HttpPanicSites.v if its content changed."""
+    okb, log = C.go_build(["panicsites"])
+    if not okb:
+        return False, log
+    tmp = os.path.join(C.BUILD, "HttpPanicSites-%d.v" % os.getpid())
+    rc, out = C.sh([os.path.join(C.BIN, "panicsites"), "-repo", C.REPO, "-out", tmp, "-go", C.GO], env=C.GOENV, timeout=600)
+    if rc != 0:
+        return False, out
+    dst = os.path.join(C.COQ, "gen", "HttpPanicSites.v")
+    with C.Lock("coq"):
+        if not os.path.exists(dst) or not filecmp.cmp(tmp, dst, shallow=False):
+            shutil.copyfile(tmp, dst)
+    os.unlink(tmp)
+    return True, out.strip()
+
+
+def unjustified_sites():
+    """Ask Coq which sites of the regenerated table no policy rule covers (the gen file and the policy compile even
+    when props/C19.v does not)."""
+    src = ("From Coq Require Import String List.\nFrom GS Require Import HttpPanic HttpPanicPolicy HttpPanicSites.\n"
+           "Eval vm_compute in (map (fun s => (ps_pkg s, ps_func s, ps_kind s, ps_expr s, ps_conds s, ps_dbg s)) "
+           "(unjustified http_panic_policy sites)).\n")
+    f = os.path.join(C.BUILD, "unjustified_%d.v" % os.getpid())
+    open(f, "w").write(src)
+    with C.Lock("coq"):
+        rc, out = C.sh(["timeout", "300", "coqc"] + C.coq_flags() + [f], cwd=C.COQ)
+    for ext in (".v", ".vo", ".vok", ".vos", ".glob"):
+        try:
+            os.unlink(f[:-2] + ext)
+        except OSError:
+            pass
+    if rc != 0:
+        return None, out[-1500:]
+    body = out.split(": list", 1)[0]
+    sites = re.findall(r'\("([^"]*)",\s*"([^"]*)",\s*(\w+),\s*"((?:[^"]|"")*)",\s*(\[[^\]]*\]|nil),\s*"([^"]*)"\)', body)
+    return [{"package": a, "function": b, "kind": k, "expression": e.replace('""', '"'), "conditions": c, "at": d}
+            for a, b, k, e, c, d in sites], ""
+
+
 def run(run):
-    C.proof_leg(run, PROP, PROOFS, trusted_extra=[
+    okg, gmsg = regenerate()
+    if not okg:
+        run.violation("panicsites-failed", {"log": gmsg[-3000:]},
+                      "harness/cmd/panicsites could not extract the panic-site table from %s (theorem "
+                      "C19_panic_sites_justified is not re-checked)" % C.REPO, True)
+    else:
+        run.coverage["panic_site_table"] = gmsg
+    proved = C.proof_leg(run, PROP, PROOFS, trusted_extra=[
+        "the panic-site inventory is SYNTACTIC (harness/cmd/panicsites, go/ast + go/types: index and slice expressions, "
+        "explicit panics, map writes, channel sends/closes, unchecked type assertions, calls through function values, "
+        "dereferences through non-receiver pointers/interfaces, integer division, ServeMux.Handle/WriteHeader/WaitGroup "
+        "calls, sync.Once re-arming, make with a computed size; keyed by function and expression text); the policy's "
+        "reasons WCtor/WFresh/WLocal/WExternal/WOutOfGrammar are established by reading and assumed",
         "PARTIAL: http.ServeMux is an ORACLE (a deterministic function of the ordered pattern list; its value for each "
         "case is obtained by registering the same patterns on a scratch mux under recover); net/http.Server and the socket "
         "table are modelled",
-        "C19_http is proved for the code as it is under the explicit hypothesis that the oracle accepts every delivered "
-        "route list, and unconditionally for the variant with the candidate repair (validated = true); the witness "
-        "C19_http_refuted is replayed on the implementation on every run",
+        "the model in use is the validating constructor of /repo d243ed6 (C19_model_in_use: validated_now = true): "
+        "C19_http_repaired has no hypothesis; C19_http (hypothesis: the oracle accepts every delivered route list) and the "
+        "*_legacy refutations describe the code before the repair",
         "extraction via ExtrOcamlBasic only; OCaml driver ocaml/http.ml + util.ml; Go harness cmd/http"])
+    escalate = False
+    if okg and not proved:
+        # which obligation broke?  If it is the inventory, name the new sites and let the dynamic leg search harder
+        us, err = unjustified_sites()
+        if us:
+            escalate = True
+            run.coverage["unjustified_panic_sites"] = us
+            run.violation("panic-site-unjustified:" + ";".join(sorted(set("%s.%s:%s:%s" % (
+                u["package"], u["function"], u["kind"], u["expression"]) for u in us)))[:300],
+                {"theorem": "C19_panic_sites_justified (coq/props/C19.v) no longer holds for the regenerated "
+                            "coq/gen/HttpPanicSites.v", "sites": us},
+                "the source contains %d panic-capable expression(s) that the policy model/HttpPanicPolicy.v does not justify: %s"
+                % (len(us), "; ".join("%s %s in %s.%s (%s) under %s" % (u["kind"], u["expression"], u["package"], u["function"],
+                                                                     u["at"], u["conditions"]) for u in us[:4])), True)
     if not H.build(run):
         return
     det = os.path.join(C.BUILD, "c19-detail-%d.jsonl" % os.getpid())
-    if run.tier == "quick":
+    if escalate:
+        run.notes.append("unjustified panic sites: dynamic leg escalated (all address cases, 400 random cases of each kind)")
+        args = ["-family", "crash", "-mode", "full", "-n", "400", "-j", str(min(12, C.NPROC)), "-seed", str(run.seed), "-detail", det]
+    elif run.tier == "quick":
         args = ["-family", "crash", "-mode", "quick", "-n", "40", "-j", "8", "-seed", str(run.seed), "-detail", det]
     else:
         args = ["-family", "crash", "-mode", "full", "-n", "15000", "-j", str(min(12, C.NPROC)), "-seed", str(run.seed), "-detail", det]
@@ -80,11 +163,17 @@ def run(run):
         elif kind in ("hang", "none"):
             run.violation("hang:%s:%s" % (d.get("case", {}).get("kind"), ck), payload,
                           "an accepted value leads to neither normal operation nor an error (no outcome within 40 s): %s" % describe(d.get("case", {})))
+        elif kind == "newconfig":
+            cls = [x for x in t if x.startswith("class=")][0][6:]
+            run.violation("corr-newconfig:" + cls, dict(payload, theorem="correspondence A (model new_config vs NewConfig: "
+                                                        "C19_constructor_validates / C19_constructor_accepts_by_routes_only)"),
+                          "NewConfig's result differs from the model's for a construction step (options in order, copies of "
+                          "earlier products): %s :: %s" % (l, describe(d.get("case", {}))), True)
         elif kind == "crash-missing":
             cls = [x for x in t if x.startswith("class=")][0][6:]
-            run.violation("corr-crash-missing:" + cls, dict(payload, theorem="C19_http_refuted replayed on the implementation"),
-                          "the model (validated_now=%d) predicts a getMux panic that the implementation no longer exhibits: if the "
-                          "repair was committed, flip HttpServer.validated_now" % stats.get("validated", 0), True)
+            run.violation("corr-crash-missing:" + cls, dict(payload, theorem="model prediction (predicts_crash) vs implementation"),
+                          "the model (validated_now=%d) predicts a getMux panic that the implementation does not exhibit"
+                          % stats.get("validated", 0), True)
         else:
             cls = [x for x in t if x.startswith("class=")][0][6:]
             run.violation("corr-accept:" + cls, dict(payload, theorem="correspondence A (new_config_ok vs NewConfig)"),
@@ -104,7 +193,10 @@ def run(run):
         "rule": "grammar of constructor/option arguments (route patterns: wildcards, {$}, method- and host-qualified, unbalanced "
                 "braces, duplicate wildcard names, empty segments, unicode, NUL, 64 KiB; duplicate and conflicting route lists; "
                 "listen addresses; zero/negative/huge timeouts; header maps with invalid keys/values; wildcard prefixes; composite "
-                "configurations with nil/empty entry lists) + PRNG-generated route lists, each delivered at construction and at "
+                "configurations with nil/empty entry lists; CONSTRUCTION CHAINS: every With* option in any order, WithConfigCopy "
+                "of an earlier product combined with other routes / addresses / timeouts, copies of copies, nil arguments, the "
+                "product handed over through WithConfig or a callback, every product also compared field by field with the "
+                "model's new_config) + PRNG-generated route lists and construction chains, each delivered at construction and at "
                 "reload time, each in its own child process; distinct = distinct case descriptions (%d), non-trivial = accepted by "
                 "the constructors" % len(distinct),
         "samples": samples,
@@ -112,6 +204,9 @@ def run(run):
         "exhaustive": False,
         "input_distribution": {"by_kind": kinds, "by_outcome": outcomes, "oracle_panics_observed_as_crash": stats.get("cr_findings", 0)},
         "model_validated_flag": stats.get("validated", 0),
+        "newconfig_steps_compared_with_model": stats.get("nc", 0),
+        "newconfig_steps_with_a_copy": stats.get("nc_copies", 0),
+        "newconfig_steps_rejected": stats.get("nc_rejected", 0),
     })
     run.assumptions += ["ServeMux.Handle is a deterministic function of the sequence of patterns registered on a fresh mux",
                         "the model cannot exhibit panics inside net/http, user handlers or middlewares other than through the mux oracle; "
